@@ -337,25 +337,50 @@ def r10_3(ctx):
     fcls = repo.find_class("FromArray")
     lay = fcls.methods.get("_layer")
     need(lay is not None, "FromArray._layer")
-    n_lit = 0
+    from ..dataflow import Defs as _Defs
+
+    ldefs = _Defs(lay.node)
+
+    def kinds(e, depth=0):
+        """{'copy', 'source', 'other'}: is the expression a copy of the source, the source (or a view of it), or neither."""
+        if isinstance(e, ast.IfExp):
+            return kinds(e.body, depth) | kinds(e.orelse, depth)
+        if isinstance(e, ast.Call) and isinstance(e.func, ast.Attribute) and e.func.attr == "copy" and "source" in kinds(e.func.value, depth):
+            return {"copy"}
+        if isinstance(e, ast.Attribute) and unparse(e) == "self.array":
+            return {"source"}
+        if isinstance(e, ast.Subscript):
+            return {"source"} if "source" in kinds(e.value, depth) else {"other"}
+        if isinstance(e, ast.Name) and depth < 3:
+            out = set()
+            for v in ldefs.defs.get(e.id, []):
+                out |= kinds(v, depth + 1)
+            return out or {"other"}
+        return {"other"}
+
+    n_copy = 0
     for n in body_walk(lay.node):
         if isinstance(n, ast.Dict):
-            for v in n.values:
-                if v is None:
+            for k_, v in zip(n.keys, n.values):
+                if v is None or isinstance(v, ast.Tuple):
                     continue
-                t = unparse(v)
-                if t.startswith("self.array") and not isinstance(v, ast.Tuple):
-                    n_lit += 1
-                    cst = site(lay, v)
-                    rr.inst(cst, literal=t)
-                    if not (isinstance(v, ast.Call) and isinstance(v.func, ast.Attribute) and v.func.attr == "copy"):
-                        # ``{arr_key: self.array}`` for non-NumPy sources is a reference to the store object, not data
-                        key_txt = unparse(n.keys[n.values.index(v)]) if n.keys[n.values.index(v)] is not None else ""
-                        if "arr_key" in key_txt:
-                            rr.exempt(cst, "the source *object* (h5py/zarr-like) placed in the graph once; it is read through getter, never handed out as a block")
-                            continue
-                        ctx.finding(rr, cst, "the source array itself is placed in the graph as a block without .copy(): compute() would return (and tasks could mutate) the stored source buffer", func=lay, node=v)
-    need(n_lit >= 2, "FromArray._layer no longer has the single-block literal branch")
+                ks = kinds(v)
+                if ks == {"other"}:
+                    continue
+                cst = site(lay, v)
+                rr.inst(cst, literal=unparse(v)[:80], kinds=sorted(ks))
+                if "source" in ks:
+                    # ``{arr_key: self.array}`` for non-NumPy sources is a reference to the store object, not data
+                    key_txt = unparse(k_) if k_ is not None else ""
+                    if "arr_key" in key_txt:
+                        rr.exempt(cst, "the source *object* (h5py/zarr-like) placed in the graph once; it is read through getter, never handed out as a block")
+                        continue
+                    ctx.finding(rr, cst, "the source array itself is placed in the graph as a block without .copy(): compute() would return (and tasks could mutate) the stored source buffer", func=lay, node=v)
+                else:
+                    n_copy += 1
+    if n_copy == 0:
+        rr.inst(lay.construct + "::single-block literal", present=False)
+        ctx.finding(rr, lay.construct + "::single-block literal", "FromArray._layer no longer stores a .copy() of a single-block NumPy source as the block literal", func=lay)
     # (c) FromArray._accept_slice eager slice
     acc = fcls.methods.get("_accept_slice")
     need(acc is not None, "FromArray._accept_slice")
